@@ -164,8 +164,6 @@ structure Client where
   ex : Bool := true           -- the shared state exists
   slot : Nat := 0
   maxActive : Nat
-  snapCtr : Nat
-  snap : List (Option (Nat × Nat))   -- server_list_state: (server, number_of_responses)
   chanIds : List Nat          -- available_channel_ids
   activeCnt : Nat := 0
   ridCtr : Nat := 0
@@ -188,11 +186,16 @@ structure Server where
   ex : Bool := true
   slot : Nat := 0
   loanPerReq : Nat
-  snapCtr : Nat
-  snap : List (Option (Nat × Nat))   -- client_list_state: (client, number_of_requests)
   actives : List Active := []
   usedLabels : List Nat := []   -- harness: labels of active requests are not reused
   gRecvReq : List (Nat × Nat) := []  -- ghost: (client, request id) of every active request handed out
+deriving Repr
+
+/-- `server_list_state` of a client / `client_list_state` of a server: the registry as last seen,
+entries = (peer, number of chunks of the peer's data segment) -/
+structure Snap where
+  ctr : Nat
+  slots : List (Option (Nat × Nat))
 deriving Repr
 
 structure World where
@@ -203,6 +206,7 @@ structure World where
   servers : AMap Nat Server := []
   snds : AMap Pid Snd := []
   rcvs : AMap Pid Rcv := []
+  snaps : AMap Pid Snap := []
   conns : AMap (Pid × Pid) Conn := []      -- key: (sender, receiver)
   panicked : Bool := false
 
@@ -218,6 +222,8 @@ def setRcv (w : World) (p : Pid) (x : Rcv) : World := { w with rcvs := AMap.set 
 def getConn (w : World) (f t : Pid) : Option Conn := AMap.get w.conns (f, t)
 def setConn (w : World) (f t : Pid) (x : Conn) : World := { w with conns := AMap.set w.conns (f, t) x }
 def delConn (w : World) (f t : Pid) : World := { w with conns := AMap.del w.conns (f, t) }
+def getSnap (w : World) (p : Pid) : Option Snap := AMap.get w.snaps p
+def setSnap (w : World) (p : Pid) (x : Snap) : World := { w with snaps := AMap.set w.snaps p x }
 def getCl (w : World) (c : Nat) : Option Client := AMap.get w.clients c
 def setCl (w : World) (c : Nat) (x : Client) : World := { w with clients := AMap.set w.clients c x }
 def getSv (w : World) (s : Nat) : Option Server := AMap.get w.servers s
@@ -732,37 +738,37 @@ def sndSlots (w : World) (me : Pid) : Nat := match getSnd w me with | some S => 
 
 /-- `ClientSharedState::force_update_connections` -/
 def clientForceUpdate (w : World) (c : Nat) : World :=
-  match getCl w c with
+  match getSnap w (cid c) with
   | none => w
-  | some C =>
-    let (w, st, rt) := portUpdateSlots w (cid c) true w.cfg.maxActive C.snap 0 [] []
+  | some sp =>
+    let (w, st, rt) := portUpdateSlots w (cid c) true w.cfg.maxActive sp.slots 0 [] []
     let w := rcvFinish w (cid c) rt (rcvSlots w (cid c)) 0
     sndFinish w (cid c) st (sndSlots w (cid c))
 
 /-- `ClientSharedState::update_connections` -/
 def clientUpdate (w : World) (c : Nat) : World :=
-  match getCl w c with
+  match getSnap w (cid c) with
   | none => w
-  | some C =>
-    if C.snapCtr = w.serverReg.counter then w
-    else clientForceUpdate (setCl w c { C with snapCtr := w.serverReg.counter, snap := w.serverReg.slots }) c
+  | some sp =>
+    if sp.ctr = w.serverReg.counter then w
+    else clientForceUpdate (setSnap w (cid c) { ctr := w.serverReg.counter, slots := w.serverReg.slots }) c
 
 /-- `SharedServerState::force_update_connections` -/
 def serverForceUpdate (w : World) (s : Nat) : World :=
-  match getSv w s with
+  match getSnap w (sid s) with
   | none => w
-  | some S =>
-    let (w, st, rt) := portUpdateSlots w (sid s) false w.cfg.respBuf S.snap 0 [] []
+  | some sp =>
+    let (w, st, rt) := portUpdateSlots w (sid s) false w.cfg.respBuf sp.slots 0 [] []
     let w := sndFinish w (sid s) st (sndSlots w (sid s))
     rcvFinish w (sid s) rt (rcvSlots w (sid s)) 0
 
 /-- `SharedServerState::update_connections` -/
 def serverUpdate (w : World) (s : Nat) : World :=
-  match getSv w s with
+  match getSnap w (sid s) with
   | none => w
-  | some S =>
-    if S.snapCtr = w.clientReg.counter then w
-    else serverForceUpdate (setSv w s { S with snapCtr := w.clientReg.counter, snap := w.clientReg.slots }) s
+  | some sp =>
+    if sp.ctr = w.clientReg.counter then w
+    else serverForceUpdate (setSnap w (sid s) { ctr := w.clientReg.counter, slots := w.clientReg.slots }) s
 
 /-- both ports of a dropped shared state go: `Sender` and `Receiver` with all their connections -/
 def portDestroy (w : World) (me : Pid) : World :=
@@ -924,15 +930,16 @@ def opCClient (w : World) (c : Nat) (ma : Option Nat) : World × String :=
                    storage := SlotMap.init (w.cfg.cExpired + w.cfg.maxServers), tbrCap := w.cfg.cExpired,
                    nChan := w.cfg.nChannels, init := .closed, cap := w.cfg.respBuf,
                    overflow := w.cfg.ovResp, maxBorrow := w.cfg.maxBorrow }
-  let C : Client := { maxActive := active, snapCtr := w.serverReg.counter, snap := w.serverReg.slots,
-                      chanIds := List.range n }
-  let w1 := clientForceUpdate (setRcv (setSnd (setCl w c C) (cid c) S) (cid c) R) c
+  let C : Client := { maxActive := active, chanIds := List.range n }
+  let sp : Snap := { ctr := w.serverReg.counter, slots := w.serverReg.slots }
+  let w1 := clientForceUpdate (setSnap (setRcv (setSnd (setCl w c C) (cid c) S) (cid c) R) (cid c) sp) c
   match w1.clientReg.add (c, n), getCl w1 c with
   | some (reg, slot), some C1 => finishPanic w ({ setCl w1 c { C1 with slot := slot } with clientReg := reg }, "ok")
   | _, _ =>
     -- the port is dropped again: its connections are closed, nothing else remains
     let w2 := portDestroy w1 (cid c)
-    finishPanic w ({ w2 with clients := AMap.del w2.clients c, snds := AMap.del w2.snds (cid c), rcvs := AMap.del w2.rcvs (cid c) },
+    finishPanic w ({ w2 with clients := AMap.del w2.clients c, snds := AMap.del w2.snds (cid c), rcvs := AMap.del w2.rcvs (cid c),
+                             snaps := AMap.del w2.snaps (cid c) },
                    "err:ExceedsMaxSupportedClients")
 
 def opDClient (w : World) (c : Nat) : World × String :=
@@ -955,13 +962,15 @@ def opCServer (w : World) (s : Nat) (ml : Option Nat) : World × String :=
                    storage := SlotMap.init (w.cfg.sExpired + w.cfg.maxClients), tbrCap := w.cfg.sExpired,
                    nChan := 1, init := .id 0 false, cap := w.cfg.maxActive,
                    overflow := w.cfg.ovReq, maxBorrow := w.cfg.maxActive }
-  let V : Server := { loanPerReq := lpr, snapCtr := w.clientReg.counter, snap := w.clientReg.slots }
-  let w1 := serverForceUpdate (setRcv (setSnd (setSv w s V) (sid s) S) (sid s) R) s
+  let V : Server := { loanPerReq := lpr }
+  let sp : Snap := { ctr := w.clientReg.counter, slots := w.clientReg.slots }
+  let w1 := serverForceUpdate (setSnap (setRcv (setSnd (setSv w s V) (sid s) S) (sid s) R) (sid s) sp) s
   match w1.serverReg.add (s, n), getSv w1 s with
   | some (reg, slot), some V1 => finishPanic w ({ setSv w1 s { V1 with slot := slot } with serverReg := reg }, "ok")
   | _, _ =>
     let w2 := portDestroy w1 (sid s)
-    finishPanic w ({ w2 with servers := AMap.del w2.servers s, snds := AMap.del w2.snds (sid s), rcvs := AMap.del w2.rcvs (sid s) },
+    finishPanic w ({ w2 with servers := AMap.del w2.servers s, snds := AMap.del w2.snds (sid s), rcvs := AMap.del w2.rcvs (sid s),
+                             snaps := AMap.del w2.snaps (sid s) },
                    "err:ExceedsMaxSupportedServers")
 
 def opDServer (w : World) (s : Nat) : World × String :=
